@@ -4,6 +4,8 @@
      (1 size (num den) answers)             -> create_random_holdout
      (2 ((idxs observed) ...) (num den) answers) -> create_plate_balanced_holdout_set_among_masked_plates
      (3 n_thetas max_combos answers)        -> DBAL triple sub-sampling
+     (4 plates size t answers)              -> FixedSizeSmoother / OptimalSizeSmoother._smooth_plates with plate size t;
+                                               plates = the plates' 0/1 selection vectors; out = the final selection vector
    answers : list of list of integers (one per recorded generator call).
    Result: (0 (out requests contract_ok)) | (1 tag); requests encoded as
      (0) | (1 pool k replace) | (2 n k replace);
@@ -52,6 +54,12 @@ Definition run_c18 (orc : oracle) (s : sexp) : sexp :=
       | Some n, Some m, Some answers =>
           of_run (of_result of_Zs) answers (run (dbal_subsample_prog n m) answers)
       | _, _, _ => bad_input
+      end
+  | SL [SZ 4; plates; size; t; answers] =>
+      match as_listof (as_listof as_bool) plates, as_Z size, as_Z t, as_answers answers with
+      | Some plates, Some size, Some t, Some answers =>
+          of_run (of_list of_bool) answers (run (size_smoother_prog plates size t) answers)
+      | _, _, _, _ => bad_input
       end
   | _ => bad_input
   end.
